@@ -306,6 +306,7 @@ fn truncated_logs() -> Vec<Case> {
                     cyclic: true,
                     block,
                     arena_prep: 0,
+                    big_chunk: false,
                 },
                 max_size: None,
                 limit: None,
